@@ -18,7 +18,7 @@ macro_rules! same {
 fn uri_views<const N: usize>() {
     let t = Text::<N>::any();
     let b = t.bytes();
-    assume(tables::t_uri_uri_valid(b));
+    assume(tables::t_uri_uri_valid_k(b, N));
     let u = unsafe { Uri::new_unchecked(b) };
     assert!(same!(u.as_uri_ref().as_bytes(), b), "Uri::as_uri_ref changes the text");
     assert!(same!(u.as_iri().as_bytes(), b), "Uri::as_iri changes the text");
@@ -30,7 +30,7 @@ fn uri_views<const N: usize>() {
     assert!(same!(Borrow::<Iri>::borrow(u).as_bytes(), b), "Borrow<Iri> for Uri");
     assert!(same!(Borrow::<IriRef>::borrow(u).as_bytes(), b), "Borrow<IriRef> for Uri");
     // the targets of the unchecked casts are valid (Engine D proves it for all lengths)
-    assert!(tables::t_uri_uriref_valid(b) && tables::t_iri_iri_valid(b) && tables::t_iri_iriref_valid(b), "a valid URI is not valid in a target type");
+    assert!(tables::t_uri_uriref_valid_k(b, N) && tables::t_iri_iri_valid_k(b, N) && tables::t_iri_iriref_valid_k(b, N), "a valid URI is not valid in a target type");
     cover!(b.len() == N, "maximal length");
 }
 
@@ -44,7 +44,7 @@ pub fn c13_uri_views_n10() {
 fn uriref_views<const N: usize>() {
     let t = Text::<N>::any();
     let b = t.bytes();
-    assume(tables::t_uri_uriref_valid(b));
+    assume(tables::t_uri_uriref_valid_k(b, N));
     let r = unsafe { UriRef::new_unchecked(b) };
     let has_scheme = split_ref(b).scheme.is_some();
     match r.as_uri() {
@@ -67,7 +67,7 @@ fn uriref_views<const N: usize>() {
         Err(e) => assert!(!has_scheme && same!(e.0.as_bytes(), b), "TryFrom<&UriRef> for &Iri: wrong failure or original not returned"),
     }
     // has a scheme <=> is a URI (Engine D: for all lengths)
-    assert!(has_scheme == tables::t_uri_uri_valid(b), "reference with a scheme is not exactly a URI");
+    assert!(has_scheme == tables::t_uri_uri_valid_k(b, N), "reference with a scheme is not exactly a URI");
     cover!(has_scheme, "has a scheme");
     cover!(!has_scheme && b.len() > 3, "no scheme");
 }
@@ -82,11 +82,11 @@ pub fn c13_uriref_views_n10() {
 fn iriref_views<const N: usize>() {
     let t = Text::<N>::any();
     let b = t.bytes();
-    assume(tables::t_iri_iriref_valid(b));
+    assume(tables::t_iri_iriref_valid_k(b, N));
     let r = unsafe { IriRef::new_unchecked(as_str(b)) };
     let has_scheme = split_ref(b).scheme.is_some();
-    let is_uri = tables::t_uri_uri_valid(b);
-    let is_uriref = tables::t_uri_uriref_valid(b);
+    let is_uri = tables::t_uri_uri_valid_k(b, N);
+    let is_uriref = tables::t_uri_uriref_valid_k(b, N);
     match r.as_iri() {
         Some(u) => assert!(has_scheme && same!(u.as_bytes(), b), "IriRef::as_iri: wrong success"),
         None => assert!(!has_scheme, "IriRef::as_iri: None although there is a scheme"),
@@ -111,7 +111,7 @@ fn iriref_views<const N: usize>() {
         Ok(u) => assert!(is_uriref && same!(u.as_bytes(), b), "TryFrom<&IriRef> for &UriRef"),
         Err(e) => assert!(!is_uriref && same!(e.0.as_bytes(), b), "TryFrom<&IriRef> for &UriRef: original not returned"),
     }
-    assert!(has_scheme == tables::t_iri_iri_valid(b), "IRI reference with a scheme is not exactly an IRI");
+    assert!(has_scheme == tables::t_iri_iri_valid_k(b, N), "IRI reference with a scheme is not exactly an IRI");
     cover!(is_uri, "ASCII IRI reference that is a URI");
     cover!(!is_uriref, "IRI reference that is not a URI reference");
     cover!(has_scheme && !is_uri, "IRI that is not a URI");
@@ -129,13 +129,13 @@ pub fn c13_iriref_views_n8() {
 fn iri_views<const N: usize>() {
     let t = Text::<N>::any();
     let b = t.bytes();
-    assume(tables::t_iri_iri_valid(b));
+    assume(tables::t_iri_iri_valid_k(b, N));
     let r = unsafe { Iri::new_unchecked(as_str(b)) };
-    let is_uri = tables::t_uri_uri_valid(b);
-    let is_uriref = tables::t_uri_uriref_valid(b);
+    let is_uri = tables::t_uri_uri_valid_k(b, N);
+    let is_uriref = tables::t_uri_uriref_valid_k(b, N);
     assert!(same!(r.as_iri_ref().as_bytes(), b), "Iri::as_iri_ref changes the text");
     assert!(same!(<&IriRef>::from(r).as_bytes(), b), "From<&Iri> for &IriRef");
-    assert!(tables::t_iri_iriref_valid(b), "a valid IRI is not a valid IRI reference");
+    assert!(tables::t_iri_iriref_valid_k(b, N), "a valid IRI is not a valid IRI reference");
     match r.as_uri() {
         Some(u) => assert!(is_uri && same!(u.as_bytes(), b), "Iri::as_uri: wrong success"),
         None => assert!(!is_uri, "Iri::as_uri: None for a text the URI grammar accepts"),
@@ -171,7 +171,7 @@ pub fn c13_iri_views_n8() {
 fn owned_uri_family<const N: usize>() {
     let t = Text::<N>::any();
     let b = t.bytes();
-    assume(tables::t_uri_uriref_valid(b));
+    assume(tables::t_uri_uriref_valid_k(b, N));
     let has_scheme = split_ref(b).scheme.is_some();
     macro_rules! mk {
         () => {{
@@ -272,10 +272,10 @@ pub fn c13_owned_uri_family_n8() {
 fn owned_iri_family<const N: usize>() {
     let t = Text::<N>::any();
     let b = t.bytes();
-    assume(tables::t_iri_iriref_valid(b));
+    assume(tables::t_iri_iriref_valid_k(b, N));
     let has_scheme = split_ref(b).scheme.is_some();
-    let is_uri = tables::t_uri_uri_valid(b);
-    let is_uriref = tables::t_uri_uriref_valid(b);
+    let is_uri = tables::t_uri_uri_valid_k(b, N);
+    let is_uriref = tables::t_uri_uriref_valid_k(b, N);
     macro_rules! mk {
         () => {{
             let v = vec_of(b);
@@ -353,7 +353,7 @@ pub fn c13_owned_iri_family_n6() {
 fn cross_components<const N: usize>() {
     let t = Text::<N>::any();
     let b = t.bytes();
-    assume(tables::t_uri_uriref_valid(b));
+    assume(tables::t_uri_uriref_valid_k(b, N));
     let u = unsafe { UriRef::new_unchecked(b) };
     let i = u.as_iri_ref();
     let (us, ua, up, uq, uf) = u.parts_b();
